@@ -142,3 +142,64 @@ pub fn rotate_right_model<T>(s: &mut [T], k: usize) {
         i -= 1;
     }
 }
+
+/// Model of `<[T]>::rotate_left(1)`.
+pub fn rotate_left_model<T>(s: &mut [T], k: usize) {
+    kani::assert(k == 1, "[harness] rotate_left model only for k == 1");
+    let n = s.len();
+    let mut i = 0;
+    while i + 1 < n {
+        s.swap(i, i + 1);
+        i += 1;
+    }
+}
+
+// ---------------------------------------------------------------------------------------------
+// Policies
+// ---------------------------------------------------------------------------------------------
+use crate::{Class, Classing, Policy, PolicyFn, TREE_FRAMES};
+
+/// The policy of the integration test `zeroed_steals_from_huge` (three classes).
+pub fn zeroed_policy(requested: Class, target: Class, free: usize) -> Policy {
+    if requested.0 > target.0 {
+        return Policy::Steal;
+    } else if requested.0 < target.0 {
+        return Policy::Demote;
+    }
+    match free {
+        f if f >= TREE_FRAMES / 2 => Policy::Match(1),
+        f if f >= TREE_FRAMES / 64 => Policy::Match(u8::MAX),
+        _ => Policy::Match(0),
+    }
+}
+/// A custom policy that declares some class pairs unusable (C13): class 0 requests cannot use
+/// class-2 trees and class 3 is isolated from everything else.
+pub fn custom_policy(requested: Class, target: Class, free: usize) -> Policy {
+    if (requested.0 == 3) != (target.0 == 3) {
+        return Policy::Invalid;
+    }
+    if requested.0 == 0 && target.0 == 2 {
+        return Policy::Invalid;
+    }
+    if requested.0 > target.0 {
+        Policy::Steal
+    } else if requested.0 < target.0 {
+        Policy::Demote
+    } else if free >= TREE_FRAMES / 2 {
+        Policy::Match(1)
+    } else {
+        Policy::Match(u8::MAX)
+    }
+}
+/// One of the policies the repository uses (simple, movable, zeroed): the real function pointers.
+pub fn any_builtin_policy() -> PolicyFn {
+    match kani::any::<u8>() % 3 {
+        0 => Classing::simple(1).0.policy,
+        1 => Classing::movable(1).0.policy,
+        _ => zeroed_policy,
+    }
+}
+/// A built-in policy or the custom one with unusable pairs.
+pub fn any_policy() -> PolicyFn {
+    if kani::any() { any_builtin_policy() } else { custom_policy }
+}
